@@ -972,20 +972,12 @@ impl TypedExpr {
             ExprEnum::Op(op, x, y) => {
                 if let Op::Mul = op {
                     for (x, y) in [(x, y), (y, x)] {
-                        let (n, bits, is_neg) = match x.inner {
-                            ExprEnum::NumUnsigned(n, size) => (
-                                n,
-                                Type::Unsigned(size)
-                                    .size_in_bits_for_defs(prg, circuit.const_sizes())
-                                    as u64,
-                                false,
-                            ),
-                            ExprEnum::NumSigned(n, size) => (
-                                n.unsigned_abs(),
-                                Type::Signed(size).size_in_bits_for_defs(prg, circuit.const_sizes())
-                                    as u64,
-                                n < 0,
-                            ),
+                        // (the width is that of the product: an unsuffixed literal carries no
+                        // width of its own and would count as 32 bits)
+                        let bits = ty.size_in_bits_for_defs(prg, circuit.const_sizes()) as u64;
+                        let (n, is_neg) = match x.inner {
+                            ExprEnum::NumUnsigned(n, _) => (n, false),
+                            ExprEnum::NumSigned(n, _) => (n.unsigned_abs(), n < 0),
                             _ => continue,
                         };
                         if n == 0 {
